@@ -29,7 +29,7 @@ func NewSync[T any](cap int) SyncRing[T] {
 func (r *SyncRing[T]) Init(cap int) {
 	var c uint32
 	switch {
-	case cap <= 0:
+	case cap <= 0 || uint64(cap) > 1<<31:
 		panic("ringz.SyncRing Init: invalid capacity: " + strconv.Itoa(cap))
 	case 1 == cap:
 		c = 2
